@@ -418,7 +418,7 @@ func checkC10(w *World, tier string) *Report {
 	r.Explanation = "R10.1 (SSA provenance in each of the eight journal instructions resolved from the table): the account argument of Tracer.SaveStateChange/SaveStateKey and of every StateDB.GetState feeding it is the result of Contract.Address() on scope.Contract — the frame's storage address — and the recorder is the interpreter's own; " +
 		"R10.2 the Tracer entry points stamp the call index obtained from CurrentCallIndex() on the same recorder in the same call; CurrentCallIndex returns callTree.current.Index when the cursor is non-nil and 0 otherwise (no cached copy); with C07 the cursor is the innermost open CALL/CREATE; " +
 		"R10.3 the call index travels unchanged saveChange -> JournalChanges -> StorageChanges.append, where it is the key of the only update of the per-call map; StorageChanges.changes and StorageKey.changes have no other writers; " +
-		"R10.4 Contract.Address/AsDelegate/NewContract and the DELEGATECALL/CALLCODE frame constructors are clones of the reference (storage address = caller's under delegation). The collapse-of-repeats comparison and everything history-dependent is not decided."
+		"R10.4 Contract.Address/AsDelegate/NewContract and the DELEGATECALL/CALLCODE frame constructors are clones of the reference (storage address = caller's under delegation). R10.5 the per-call list is a function of that call's previous list and the new value only: StorageChanges.append touches no receiver state other than changes[callIdx] and stores append(changes[callIdx], newVal); JournalChanges always reaches it and saveChange reaches JournalChanges on every successful path; R7.1 (shared with C07) the node of a frame is opened before any early return and closed by exactly one deferred exit, so the cursor R10.2 reads is the innermost open CALL/CREATE. The value comparison inside the collapse of repeats and everything history-dependent is not decided."
 	slots := w.journalSlots()
 	totalGets := 0
 	for _, js := range slots {
@@ -512,6 +512,8 @@ func checkC10(w *World, tier string) *Report {
 	r.need("R10.1", 8)
 	addR102(w, r, "R10.2")
 	addR103(w, r, "R10.3")
+	addR105(w, r, "R10.5")
+	addR71(w, r, "R7.1")
 	s := w.e1()
 	want := map[string]bool{"(*Contract).Address": true, "(*Contract).AsDelegate": true, "NewContract": true, "(*EVM).DelegateCall": true, "(*EVM).CallCode": true,
 		"opDelegateCall": true, "opCallCode": true, "(*Contract).Caller": true, "(*Contract).SetCallCode": true, "(*Contract).SetCodeOptionalHash": true}
@@ -709,4 +711,184 @@ func uniqueUint64Param(fn *ssa.Function) *ssa.Parameter {
 		}
 	}
 	return out
+}
+
+// mustCallBeforeReturn: every path from the entry of fn to a return that `counts` passes a call of a
+// function satisfying pred. Returns the first uncovered return, or nil.
+func mustCallBeforeReturn(fn *ssa.Function, pred func(c ssa.CallInstruction) bool, counts func(ret *ssa.Return) bool) *ssa.Return {
+	covers := map[*ssa.BasicBlock]bool{}
+	for _, b := range fn.Blocks {
+		for _, ins := range b.Instrs {
+			if ci, ok := ins.(ssa.CallInstruction); ok && pred(ci) {
+				covers[b] = true
+			}
+		}
+	}
+	seen := map[*ssa.BasicBlock]bool{}
+	var leak *ssa.Return
+	var dfs func(b *ssa.BasicBlock)
+	dfs = func(b *ssa.BasicBlock) {
+		if seen[b] || covers[b] || leak != nil {
+			return
+		}
+		seen[b] = true
+		if ret, ok := b.Instrs[len(b.Instrs)-1].(*ssa.Return); ok {
+			if counts == nil || counts(ret) {
+				leak = ret
+			}
+			return
+		}
+		for _, s := range b.Succs {
+			dfs(s)
+		}
+	}
+	if len(fn.Blocks) > 0 {
+		dfs(fn.Blocks[0])
+	}
+	return leak
+}
+
+// nilErrorReturn: the return hands back a nil error (or has no error result): a success return.
+func nilErrorReturn(ret *ssa.Return) bool {
+	if len(ret.Results) == 0 {
+		return true
+	}
+	last := ret.Results[len(ret.Results)-1]
+	if !types.Identical(last.Type(), types.Universe.Lookup("error").Type()) {
+		return true
+	}
+	k, ok := last.(*ssa.Const)
+	return ok && k.Value == nil
+}
+
+// addR105: the per-call change list is a function of this call's previous list and the new value only.
+func addR105(w *World, r *Report, rule string) {
+	vm := forkPath(pkVM)
+	fn := w.Func(vm, "(*StorageChanges).append")
+	key := "vm.(*StorageChanges).append"
+	if fn == nil || len(fn.Params) < 3 {
+		r.undecided(rule, key, "-", "function not found")
+		return
+	}
+	recv := fn.Params[0]
+	idx := uniqueUint64Param(fn)
+	var valP *ssa.Parameter
+	for _, p := range fn.Params[1:] {
+		if _, ok := p.Type().Underlying().(*types.Slice); ok {
+			valP = p
+		}
+	}
+	var bad []string
+	var upd []*ssa.MapUpdate
+	for _, b := range fn.Blocks {
+		for _, ins := range b.Instrs {
+			switch x := ins.(type) {
+			case *ssa.FieldAddr:
+				if x.X == ssa.Value(recv) && fieldID(x) != "P0.StorageChanges.changes" {
+					bad = append(bad, "reads or writes "+fieldID(x)+" at "+w.pos(x.Pos())+": whether a value is recorded for this call then depends on state that is not this call's list (e.g. what another call journaled last)")
+				}
+			case *ssa.MapUpdate:
+				upd = append(upd, x)
+			case *ssa.UnOp:
+				if x.Op == token.MUL {
+					if g, ok := x.X.(*ssa.Global); ok {
+						bad = append(bad, "reads the package-level variable "+g.Name())
+					}
+				}
+			}
+		}
+	}
+	if len(upd) == 0 {
+		bad = append(bad, "no update of the per-call map")
+	}
+	// the value stored last is append(<this call's list>, newVal)
+	okAppend := false
+	for _, u := range upd {
+		c, ok := u.Value.(*ssa.Call)
+		if !ok {
+			continue
+		}
+		bi, ok := c.Call.Value.(*ssa.Builtin)
+		if !ok || bi.Name() != "append" || len(c.Call.Args) != 2 {
+			continue
+		}
+		// appended element: a one-element slice literal holding newVal
+		holds := false
+		if sl, ok := c.Call.Args[1].(*ssa.Slice); ok {
+			if al, ok := sl.X.(*ssa.Alloc); ok {
+				for _, rf := range *al.Referrers() {
+					if ia, ok := rf.(*ssa.IndexAddr); ok {
+						for _, r2 := range *ia.Referrers() {
+							if st, ok := r2.(*ssa.Store); ok && st.Val == ssa.Value(valP) {
+								holds = true
+							}
+						}
+					}
+				}
+			}
+		}
+		// base list: derives only from Lookup(changes, callIdx) / fresh makes
+		base := true
+		var walk func(v ssa.Value, d int)
+		walk = func(v ssa.Value, d int) {
+			if d == 0 {
+				base = false
+				return
+			}
+			switch y := v.(type) {
+			case *ssa.Extract:
+				walk(y.Tuple, d-1)
+			case *ssa.Lookup:
+				if y.Index != ssa.Value(idx) {
+					base = false
+				}
+			case *ssa.MakeSlice, *ssa.Const:
+			case *ssa.Phi:
+				for _, e := range y.Edges {
+					walk(e, d-1)
+				}
+			default:
+				base = false
+			}
+		}
+		walk(c.Call.Args[0], 6)
+		if holds && base {
+			okAppend = true
+		}
+	}
+	if !okAppend && len(upd) > 0 {
+		bad = append(bad, "the stored list is not append(<the list found under this call index>, the new value)")
+	}
+	if len(bad) > 0 {
+		r.violated(rule, key, w.pos(fn.Pos()), strings.Join(bad, "; "))
+	} else {
+		r.holds(rule, key, w.pos(fn.Pos()), "reads only changes[callIdx] and the new value; stores append(changes[callIdx], newVal) under callIdx")
+	}
+	// the journal call is made on every (successful) path of the functions above it
+	type hop struct {
+		rel, callee string
+		succOnly    bool
+	}
+	for _, h := range []hop{{"(*StorageKey).JournalChanges", "append", false}, {"(*StateChanges).saveChange", "JournalChanges", true}} {
+		f := w.Func(vm, h.rel)
+		k := "vm." + h.rel + "/always->" + h.callee
+		if f == nil {
+			r.undecided(rule, k, "-", "function not found")
+			continue
+		}
+		var counts func(*ssa.Return) bool
+		if h.succOnly {
+			counts = nilErrorReturn
+		}
+		leak := mustCallBeforeReturn(f, func(c ssa.CallInstruction) bool {
+			cal := c.Common().StaticCallee()
+			return cal != nil && cal.Name() == h.callee && isForkPkg(cal.Pkg)
+		}, counts)
+		if leak != nil {
+			r.violated(rule, k, w.pos(leak.Pos()), "a path returns (successfully) without journaling the value: an entry of the chronological sequence is dropped by a condition outside the per-call list")
+		} else {
+			r.holds(rule, k, w.pos(f.Pos()), "every successful path passes the journal call")
+		}
+	}
+	r.need(rule, 3)
 }
